@@ -56,6 +56,8 @@ CHECKS["C03"] = {
          "what": "Executor.CreateOperationContext on a 12-request corpus x 0..2 parameter mutators x 0..2 context mutators (each rejecting or not, symbolic) x cache {none, cold, warm} x suggestions on/off"},
         {"pkg": "graphql/executor", "harness": "Harness_C03_hooks", "setup": "Setup_C03_hooks", "reach": ["hooks.checked"], "workers": 4,
          "what": "processExtensions/DispatchOperation hook order for every list of 0..3 extensions over 5 hook subsets"},
+        {"pkg": "graphql/executor", "harness": "Harness_C03_concurrent", "setup": "Setup_C03_concurrent", "reach": ["c03.concurrent"], "workers": 4, "race": True, "sched_confirm": True,
+         "what": "two concurrent CreateOperationContext calls on one Executor x suggestions on/off x shared MapCache or none: verdicts and happens-before race check (gqlparser's validator included)"},
     ],
 }
 
@@ -221,6 +223,9 @@ CHECKS["C11"] = {
              what="wsConnection.init: 15 first-frame kinds x 6 payloads x 4 init-function behaviours x 2 subprotocols"),
         dict(_WS, harness="Harness_C11_subscribe", reach=["c11.sub.ran", "c11.sub.rejected"], quick={"sample_models": 40, "sample_every": 7},
              what="wsConnection.subscribe + its goroutine: verdict x 0..2 payloads x panic at step k x subscription error x 3 start payloads"),
+        dict(_WS, harness="Harness_C11_run", reach=["c11.run", "c11.run.op"], race=True, sched_confirm=True, workers=12,
+             quick={"params": {"maxlen": 2}, "sample_models": 12, "sample_every": 97}, thorough={"params": {"maxlen": 3}, "sample_models": 30, "sample_every": 997},
+             what="wsConnection.run on every client script of 1..2 [3] frames over a 9-frame alphabet, long-lived operations, a scheduling decision before every frame, race check"),
     ],
 }
 
